@@ -22,7 +22,13 @@ from uberjob._util.retry import create_retry, identity
 
 GEN = ["Retry"]
 
-EXC_TYPES = [ValueError, KeyError, RuntimeError, OSError, type("CustomError", (Exception,), {}), StopIteration]
+EXC_TYPES = [ValueError, KeyError, RuntimeError, OSError, type("CustomError", (Exception,), {}), StopIteration,
+             TypeError, AttributeError, AssertionError, ImportError, NameError, NotImplementedError, IndexError, ZeroDivisionError,
+             UnicodeError, EOFError, TimeoutError, PermissionError, FileNotFoundError, MemoryError, RecursionError]
+# what a flaky call / store operation of a real run raises: every kind of Exception is a transient failure to `retry`
+RUN_EXC = {"RuntimeError": RuntimeError, "OSError": OSError, "TypeError": TypeError, "AttributeError": AttributeError,
+           "AssertionError": AssertionError, "ImportError": ImportError, "NameError": NameError, "NotImplementedError": NotImplementedError,
+           "KeyError": KeyError, "ValueError": ValueError, "IndexError": IndexError, "TimeoutError": TimeoutError}
 BASE_TYPES = [KeyboardInterrupt, SystemExit, GeneratorExit, type("CustomBase", (BaseException,), {})]
 
 
@@ -115,15 +121,15 @@ def gen_script(rng, n):
 # ------------------------------------------------------------------------------------------------------------------
 
 class FlakyStore(uberjob.ValueStore):
-    def __init__(self, fail_op=None, fail_first=0, mtime=None):
-        self.fail_op, self.fail_first, self.mtime = fail_op, fail_first, mtime
+    def __init__(self, fail_op=None, fail_first=0, mtime=None, exc=OSError):
+        self.fail_op, self.fail_first, self.mtime, self.exc = fail_op, fail_first, mtime, exc
         self.calls = {"read": 0, "write": 0, "mtime": 0}
         self.raised, self.value = [], None
 
     def _maybe_fail(self, op):
         self.calls[op] += 1
         if op == self.fail_op and self.calls[op] <= self.fail_first:
-            e = OSError(f"{op} attempt {self.calls[op]}")
+            e = self.exc(f"{op} attempt {self.calls[op]}")
             self.raised.append(e)
             raise e
 
@@ -144,6 +150,7 @@ def run_case(case):
     """One real `run` with retry=n and ONE flaky operation (fails its first j attempts).
     Returns (reply in the driver's format, monitor text | None)."""
     n, j, op = case["n"], case["j"], case["op"]
+    exc_t = RUN_EXC[case.get("exc", "RuntimeError" if op == "call" else "OSError")]
     plan, reg = Plan(), Registry()
     fn_calls = {"n": 0}
     raised = []
@@ -151,13 +158,13 @@ def run_case(case):
     def fn():
         fn_calls["n"] += 1
         if op == "call" and fn_calls["n"] <= j:
-            e = RuntimeError(f"call attempt {fn_calls['n']}")
+            e = exc_t(f"call attempt {fn_calls['n']}")
             raised.append(e)
             raise e
         return 41
 
     store = FlakyStore(fail_op=op if op != "call" else None, fail_first=j,
-                       mtime=dt.datetime(2021, 1, 1) if case["kind"] == "source" else None)
+                       mtime=dt.datetime(2021, 1, 1) if case["kind"] == "source" else None, exc=exc_t)
     if case["kind"] == "source":
         store.value = 41
         node = reg.source(plan, store)
@@ -279,7 +286,10 @@ def retry_diff(ctx, replay=None):
     for op, kind in (("call", "call"), ("write", "call"), ("read", "call"), ("mtime", "call"), ("read", "source"), ("mtime", "source")):
         for n in ([1, 2, 3] if quick else [1, 2, 3, 4, 6]):
             for j in range(0, n + 2):
-                run_cases.append({"what": "run", "op": op, "kind": kind, "n": n, "j": j})
+                # the kind of exception comes round (every operation x every kind within a few checks of consecutive seeds)
+                names = sorted(RUN_EXC)
+                run_cases.append({"what": "run", "op": op, "kind": kind, "n": n, "j": j,
+                                  "exc": names[(len(run_cases) + ctx.seed) % len(names)]})
     if not viol:
         for case in run_cases:
             reply, w = run_case(case)
